@@ -78,16 +78,32 @@ pub struct CaseResult {
 /// instead of a literal handle: the enumerated histories do not know which handle values the crate hands out.
 pub const LAST_FILE: u32 = 0xFFFF_FF01;
 pub const PREV_FILE: u32 = 0xFFFF_FF02;
+/// likewise: the directory / volume opened most recently and still open
+pub const LAST_DIR: u32 = 0xFFFF_FF03;
+pub const LAST_VOL: u32 = 0xFFFF_FF04;
 
 fn resolve_placeholders(op: &Op, gs: &GState) -> Op {
     let r = |h: u32| -> u32 {
         match h {
             LAST_FILE => gs.files.last().map(|f| f.handle).unwrap_or(LAST_FILE),
             PREV_FILE => if gs.files.len() >= 2 { gs.files[gs.files.len() - 2].handle } else { PREV_FILE },
+            LAST_DIR => gs.dirs.last().map(|d| d.handle).unwrap_or(LAST_DIR),
+            LAST_VOL => gs.vols.last().map(|v| v.handle).unwrap_or(LAST_VOL),
             other => other,
         }
     };
     match op {
+        Op::OpenRoot(v) => Op::OpenRoot(r(*v)),
+        Op::CloseVolume(v) => Op::CloseVolume(r(*v)),
+        Op::Label(v) => Op::Label(r(*v)),
+        Op::OpenDir(d, n) => Op::OpenDir(r(*d), n.clone()),
+        Op::CloseDir(d) => Op::CloseDir(r(*d)),
+        Op::OpenFile(d, n, m) => Op::OpenFile(r(*d), n.clone(), *m),
+        Op::Delete(d, n) => Op::Delete(r(*d), n.clone()),
+        Op::Mkdir(d, n) => Op::Mkdir(r(*d), n.clone()),
+        Op::Find(d, n) => Op::Find(r(*d), n.clone()),
+        Op::List(d) => Op::List(r(*d)),
+        Op::ListLfn(d, n) => Op::ListLfn(r(*d), *n),
         Op::Read(f, n) => Op::Read(r(*f), *n),
         Op::Write(f, b) => Op::Write(r(*f), b.clone()),
         Op::SeekStart(f, n) => Op::SeekStart(r(*f), *n),
@@ -440,8 +456,11 @@ fn run_case_inner(rng: &mut Rng, sc: &Scenario, cfg: &RunCfg, model: &mut Model,
         // (C11) a failed device call must surface as an error
         if faulted {
             rep.count("fault:fired");
+            rep.count(&format!("fault:fired:{}", op_orig.kind()));
             rep.oracle_checks += 1;
-            if !out.res.starts_with("err") {
+            // (a `drop` has no result to report an error in)
+            let is_drop = matches!(op_orig, Op::WDropFile(_) | Op::WDropDir(_) | Op::WDropVolume(_));
+            if !out.res.starts_with("err") && !is_drop {
                 local_violation = true;
                 rep.violation("impl-vs-spec", "fault-not-reported", &format!("a device call failed during `{}` but the call returned `{}`", op.show(), truncate(&out.res, 80)),
                     replay_of(&ops, &outcomes, sidx, sc, J::obj(vec![("op", J::s(op.show())), ("fault_rel", J::s(format!("{:?}", fault_here)))])));
@@ -482,6 +501,46 @@ fn run_case_inner(rng: &mut Rng, sc: &Scenario, cfg: &RunCfg, model: &mut Model,
                 }
                 if full {
                     rep.count("limit:reached");
+                }
+            }
+        }
+        // (C08) a handle that is open is never rejected as a bad handle (fault-free runs: after a failed close the
+        // reference does not know whether the handle survived)
+        if cfg.faults.is_empty() && out.res == "err BadHandle" {
+            let live = match &op {
+                Op::Read(f, _) | Op::Write(f, _) | Op::Flush(f) | Op::CloseFile(f) | Op::Length(f) | Op::Offset(f) | Op::Eof(f) | Op::SeekStart(f, _) | Op::SeekCur(f, _) | Op::SeekEnd(f, _) => gs.files.iter().any(|x| x.handle == *f),
+                Op::OpenFile(d, ..) | Op::Delete(d, _) | Op::Mkdir(d, _) | Op::OpenDir(d, _) | Op::Find(d, _) | Op::List(d) | Op::ListLfn(d, _) | Op::CloseDir(d) => gs.dirs.iter().any(|x| x.handle == *d),
+                Op::CloseVolume(v) | Op::Label(v) | Op::OpenRoot(v) => gs.vols.iter().any(|x| x.handle == *v),
+                _ => false,
+            };
+            rep.oracle_checks += 1;
+            if live {
+                local_violation = true;
+                rep.violation("impl-vs-spec", &format!("live-handle-rejected:{}", op.kind()), &format!("`{}` was answered BadHandle although the handle is open (returned by an earlier call of this history and not closed since)", op.show()),
+                    replay_of(&ops, &outcomes, sidx, sc, J::obj(vec![("op", J::s(op.show()))])));
+            }
+        }
+        // (C07 / C03) a file that is open cannot be opened again or deleted, whatever else is open on other volumes
+        if out.is_ok() {
+            if let Op::OpenFile(d, n, _) | Op::Delete(d, n) = &op {
+                if let Some(gd) = gs.dirs.iter().find(|x| x.handle == *d) {
+                    let mut p = gd.path.clone();
+                    p.push(sfn(n));
+                    rep.oracle_checks += 1;
+                    if gs.files.iter().any(|f| f.vol == gd.vol && f.path == p) {
+                        local_violation = true;
+                        rep.violation("impl-vs-spec", &format!("open-file-not-exclusive:{}", op.kind()), &format!("`{}` succeeded although that file is open ({} files open, on {} volumes)", op.show(), gs.files.len(), gs.vols.len()),
+                            replay_of(&ops, &outcomes, sidx, sc, J::obj(vec![("op", J::s(op.show()))])));
+                    }
+                }
+            }
+        }
+        if let Op::OpenFile(d, n, _) | Op::Delete(d, n) = &op {
+            if let Some(gd) = gs.dirs.iter().find(|x| x.handle == *d) {
+                let mut p = gd.path.clone();
+                p.push(sfn(n));
+                if gs.files.iter().any(|f| f.vol == gd.vol && f.path == p) {
+                    rep.count(&format!("exclusive:{}-of-open-file:{}", op.kind(), if gs.vols.len() > 1 { "several-volumes-open" } else { "one-volume-open" }));
                 }
             }
         }
@@ -600,6 +659,38 @@ fn run_case_inner(rng: &mut Rng, sc: &Scenario, cfg: &RunCfg, model: &mut Model,
                 device_calls.push(0);
                 if out.res == "err DiskFull" || out.res == "err NotEnoughSpace" {
                     rep.count("space:disk-full-reached");
+                }
+            }
+        }
+        // (C11) a close that failed on a device fault: through the wrappers the handle is consumed, so the file must be
+        // released (otherwise nobody can ever close it); through the raw call it must be released or still closable
+        if faulted && matches!(op_orig, Op::WCloseFile(_) | Op::WDropFile(_) | Op::CloseFile(_)) && out.res != "err BadHandle" && out.res != "panic" {
+            if let Op::CloseFile(f) = &op {
+                let q = Op::Length(*f);
+                let qo = sess.exec(&q);
+                rep.count(&format!("fault:close-probe:{}", op_orig.kind()));
+                rep.oracle_checks += 1;
+                let still_open = qo.res.starts_with("ok");
+                lines.push(Line { req: q.line(), expect: Expect::Op(qo.line(cfg.compare_reads)), step: sidx });
+                ops.push(q);
+                outcomes.push(qo);
+                device_calls.push(0);
+                if still_open && !matches!(op_orig, Op::CloseFile(_)) {
+                    local_violation = true;
+                    rep.violation("impl-vs-spec", "handle-leaked-after-failed-close", &format!("`{}` failed on an injected device fault; the wrapper has given up the handle, but the file is still open in the volume manager (nobody can close it any more)", op_orig.show()),
+                        replay_of(&ops, &outcomes, sidx, sc, J::obj(vec![("op", J::s(op_orig.show())), ("fault_rel", J::s(format!("{:?}", fault_here)))])));
+                } else if still_open {
+                    let q2 = Op::CloseFile(*f);
+                    let q2o = sess.exec(&q2);
+                    lines.push(Line { req: q2.line(), expect: Expect::Op(q2o.line(cfg.compare_reads)), step: sidx });
+                    if !q2o.is_ok() {
+                        local_violation = true;
+                        rep.violation("impl-vs-spec", "handle-not-closable-after-fault", &format!("`{}` failed on an injected device fault and left the file open; closing it again without fault answered `{}`", op_orig.show(), q2o.res),
+                            replay_of(&ops, &outcomes, sidx, sc, J::obj(vec![("op", J::s(op_orig.show()))])));
+                    }
+                    ops.push(q2);
+                    outcomes.push(q2o);
+                    device_calls.push(0);
                 }
             }
         }
@@ -1143,6 +1234,64 @@ fn enumerate_histories(ctx: &Ctx, rep: &mut Report, model: &mut Model, prop: &st
     let _ = ctx;
 }
 
+/// Scripted histories on THREE volumes that are open at the same time (C03 / C07 / C08): records of different
+/// volumes sit side by side in the tables, a volume in the middle of the table is closed (the table is reordered)
+/// and the others are used afterwards, an open file of one volume is deleted / re-opened while files of the other
+/// volumes are open (must be refused), everything is closed and the volumes are opened again.
+fn multi_volume_scripts(ctx: &Ctx, rng: &mut Rng, model: &mut Model, rep: &mut Report, tag: &str, fsck: bool) {
+    for k in 0..budget(ctx, 3, 12) {
+        let mut sc = make_scenario(rng, &ScOpts { multi_volume: true, fat32: Some(k % 3 == 2), big_tree: true, bpc_choices: vec![1, 2], limits: Some(if k % 2 == 0 { (6, 7, 5) } else { (8, 8, 4) }), ..Default::default() });
+        for _ in 0..8 {
+            if sc.vols.len() == 3 {
+                break;
+            }
+            sc = make_scenario(rng, &ScOpts { multi_volume: true, fat32: Some(k % 3 == 2), big_tree: true, bpc_choices: vec![1, 2], limits: Some(if k % 2 == 0 { (6, 7, 5) } else { (8, 8, 4) }), ..Default::default() });
+        }
+        if sc.vols.len() != 3 {
+            continue;
+        }
+        let h = |i: u32| sc.id_offset.wrapping_add(i);
+        let cb = (sc.vols[1].layout.bpc * 512) as usize;
+        // the volume closed first: the first, the middle or the last record of the table
+        let order: [usize; 3] = [[0, 1, 2], [1, 0, 2], [2, 0, 1]][k % 3];
+        let (va, vb, vc) = (h(order[0] as u32), h(order[1] as u32), h(order[2] as u32));
+        let (da, db, dc) = (h(3 + order[0] as u32), h(3 + order[1] as u32), h(3 + order[2] as u32));
+        // files of different volumes side by side; the new, dirty file of b is the second or the first record
+        let (fc, fb, fa) = if k % 2 == 0 { (h(6), h(7), h(8)) } else { (h(7), h(6), h(8)) };
+        let open_c = Op::OpenFile(dc, "F0.DAT".into(), Mode::ReadOnly);
+        let open_b = Op::OpenFile(db, "MV.BIN".into(), Mode::ReadWriteCreate);
+        let script = vec![
+            Op::OpenVolume(sc.vols[0].slot), Op::OpenVolume(sc.vols[1].slot), Op::OpenVolume(sc.vols[2].slot),
+            Op::OpenRoot(h(0)), Op::OpenRoot(h(1)), Op::OpenRoot(h(2)),
+            if k % 2 == 0 { open_c.clone() } else { open_b.clone() }, if k % 2 == 0 { open_b } else { open_c }, Op::OpenFile(da, "F2.DAT".into(), Mode::ReadOnly),
+            Op::Write(fb, (0..cb + 300).map(|i| (i * 3 + k) as u8).collect()),
+            // the open file of b: delete and every kind of re-open must be refused, whatever sits before it in the table
+            Op::Delete(db, "MV.BIN".into()), Op::OpenFile(db, "MV.BIN".into(), Mode::ReadWriteTruncate), Op::OpenFile(db, "MV.BIN".into(), Mode::ReadOnly), Op::OpenFile(db, "mv.bin".into(), Mode::ReadWriteCreateOrAppend),
+            Op::Delete(dc, "F0.DAT".into()), Op::Delete(da, "F2.DAT".into()),
+            Op::Write(fb, vec![0x5A; 700]), Op::OpenFile(db, "MV2.BIN".into(), Mode::ReadWriteCreate), Op::Write(LAST_FILE, vec![0xC3; cb + 1]), Op::CloseFile(LAST_FILE),
+            Op::Read(fc, 100), Op::Read(fa, 100), Op::HasOpen,
+            // close volume a (first its file and directory); the table of volumes is reordered
+            Op::CloseVolume(va), Op::CloseFile(fa), Op::CloseVolume(va), Op::CloseDir(da), Op::CloseVolume(va), Op::CloseVolume(va),
+            // the other two are used afterwards, through every kind of handle
+            Op::List(db), Op::List(dc), Op::Find(dc, "F0.DAT".into()), Op::Label(vb), Op::Label(vc), Op::Read(fc, 50), Op::SeekStart(fb, 10), Op::Read(fb, 20), Op::Length(fb),
+            Op::OpenRoot(vb), Op::OpenRoot(vc), Op::CloseDir(LAST_DIR), Op::CloseDir(LAST_DIR),
+            Op::Mkdir(dc, "MVDIR".into()), Op::OpenDir(dc, "MVDIR".into()), Op::CloseDir(LAST_DIR),
+            Op::Flush(fb), Op::CloseFile(fb), Op::CloseFile(fc),
+            // volume a again (a new handle), then b is closed from the middle / front
+            Op::OpenVolume(sc.vols[order[0]].slot), Op::OpenVolume(sc.vols[order[1]].slot), Op::OpenRoot(LAST_VOL), Op::List(LAST_DIR), Op::OpenFile(LAST_DIR, "F1.DAT".into(), Mode::ReadOnly), Op::Read(LAST_FILE, 30), Op::CloseFile(LAST_FILE), Op::CloseDir(LAST_DIR),
+            Op::CloseDir(db), Op::CloseVolume(vb), Op::List(dc), Op::Label(vc), Op::Label(LAST_VOL), Op::OpenRoot(LAST_VOL), Op::List(LAST_DIR), Op::CloseDir(LAST_DIR),
+            Op::OpenFile(dc, "MV.BIN".into(), Mode::ReadOnly), Op::OpenFile(dc, "F0.DAT".into(), Mode::ReadWriteAppend), Op::Write(LAST_FILE, vec![1, 2, 3]), Op::CloseFile(LAST_FILE),
+            Op::CloseDir(dc), Op::CloseVolume(vc), Op::CloseVolume(LAST_VOL), Op::HasOpen,
+        ];
+        let mut cfg = RunCfg::base(script.len(), Profile::general());
+        cfg.script = Some(script);
+        cfg.fsck_every_op = fsck;
+        cfg.region_oracle = true;
+        rep.count("scripted:three-volumes-open");
+        run_case(rng, &sc, &cfg, model, rep, &format!("{tag}/mv{k}"));
+    }
+}
+
 pub fn c01(ctx: &Ctx) -> Report {
     let mut rep = Report::new("C01");
     let wrap_ok = io_probe_guard(&mut rep);
@@ -1156,6 +1305,7 @@ pub fn c01(ctx: &Ctx) -> Report {
         cfg.quiesce_every = 0;
         // every second history goes (for a third of its calls) through the RAII wrappers and the embedded-io traits
         cfg.profile.wrap = wrap_ok && k % 2 == 1;
+        cfg.profile.all_volumes = o.multi_volume && k % 8 == 7;
         run_case(&mut rng, &sc, &cfg, &mut model, &mut rep, &format!("c01/{}/{k}", ctx.seed));
     }
     max_file_size_case(&mut rep, "C01");
@@ -1220,12 +1370,16 @@ pub fn c03(ctx: &Ctx) -> Report {
     let mut rng = Rng::new(ctx.seed ^ 0xC03);
     let n = budget(ctx, 40, 1200);
     for k in 0..n {
-        let o = ScOpts { fat32: Some(k % 4 == 0), keep_free: if k % 2 == 0 { Some(vec![0, 1, 2, 5]) } else { None }, small_root: k % 3 == 1, big_tree: k % 3 != 1, full_dir: k % 3 == 2, dirty: k % 2 == 1 || k % 6 == 2, stale_info: k % 8 == 4, hint_in_use: k % 16 == 8, bpc_choices: vec![1, 1, 2, 4], ..Default::default() };
+        // every fifth history works on two or three volumes at once (all opened first, files of different volumes side
+        // by side in the tables)
+        let o = ScOpts { fat32: Some(k % 4 == 0), multi_volume: k % 5 == 3, keep_free: if k % 2 == 0 { Some(vec![0, 1, 2, 5]) } else { None }, small_root: k % 3 == 1, big_tree: k % 3 != 1, full_dir: k % 3 == 2, dirty: k % 2 == 1 || k % 6 == 2, stale_info: k % 8 == 4, hint_in_use: k % 16 == 8, bpc_choices: vec![1, 1, 2, 4], ..Default::default() };
         let sc = make_scenario(&mut rng, &o);
         let mut cfg = RunCfg::base(budget(ctx, 40, 60), if k % 2 == 0 { Profile::space() } else { Profile::namespace() });
+        cfg.profile.all_volumes = o.multi_volume;
         cfg.fsck_every_op = true;
         run_case(&mut rng, &sc, &cfg, &mut model, &mut rep, &format!("c03/{}/{k}", ctx.seed));
     }
+    multi_volume_scripts(ctx, &mut rng, &mut model, &mut rep, &format!("c03/{}", ctx.seed), true);
     if ctx.thorough {
         enumerate_histories(ctx, &mut rep, &mut model, "c03", false, Some(2), 3, 1, 0);
         enumerate_histories(ctx, &mut rep, &mut model, "c03", true, None, 3, 3, ctx.seed as usize);
@@ -1247,6 +1401,7 @@ pub fn c04(ctx: &Ctx) -> Report {
         let sc = make_scenario(&mut rng, &o);
         let mut cfg = RunCfg::base(budget(ctx, 50, 70), if k % 2 == 0 { Profile::general() } else { Profile::space() });
         cfg.region_oracle = true;
+        cfg.profile.all_volumes = o.multi_volume && k % 4 == 0;
         let base = run_case(&mut rng, &sc, &cfg, &mut model, &mut rep, &format!("c04/{}/{k}", ctx.seed));
         // the same history with a device failure at a few call indices: what is written after a failed call must
         // still be inside the frame (a block must never be rewritten from a buffer a failed read left behind)
@@ -1343,9 +1498,10 @@ pub fn c07(ctx: &Ctx) -> Report {
     let mut rng = Rng::new(ctx.seed ^ 0xC07);
     let n = budget(ctx, 50, 1500);
     for k in 0..n {
-        let o = ScOpts { fat32: Some(k % 2 == 0), ..Default::default() };
+        let o = ScOpts { fat32: Some(k % 2 == 0), multi_volume: k % 4 == 1, ..Default::default() };
         let sc = make_scenario(&mut rng, &o);
         let mut cfg = RunCfg::base(budget(ctx, 50, 70), Profile::general());
+        cfg.profile.all_volumes = o.multi_volume;
         cfg.profile.w_open_file = 30;
         cfg.profile.w_delete = 10;
         cfg.profile.w_mkdir = 8;
@@ -1353,6 +1509,7 @@ pub fn c07(ctx: &Ctx) -> Report {
         cfg.region_oracle = true;
         run_case(&mut rng, &sc, &cfg, &mut model, &mut rep, &format!("c07/{}/{k}", ctx.seed));
     }
+    multi_volume_scripts(ctx, &mut rng, &mut model, &mut rep, &format!("c07/{}", ctx.seed), false);
     finish(rep, &model, "the six open modes x {missing, existing file, read-only file (F1.DAT carries the attribute), directory, already-open file} x valid and invalid 8.3 names at random points of random histories, writes through read-only handles, delete/mkdir guards; results compared with the Lean model (whose decision logic the theorems characterise), refused calls must issue no device write; distinct = histories")
 }
 
@@ -1368,9 +1525,13 @@ pub fn c08(ctx: &Ctx) -> Report {
         let mut cfg = RunCfg::base(budget(ctx, 60, 120), Profile::handles());
         // every third history closes / drops / changes directory through the RAII wrappers
         cfg.profile.wrap = wrap_ok && k % 3 == 2;
+        // every fourth history opens all its volumes first and keeps working on all of them (closing one in the
+        // middle of the table reorders it)
+        cfg.profile.all_volumes = o.multi_volume && k % 4 == 0;
         run_case(&mut rng, &sc, &cfg, &mut model, &mut rep, &format!("c08/{}/{k}", ctx.seed));
         reenter_case(&mut rng, &sc, &mut model, &mut rep, &format!("c08r/{}/{k}", ctx.seed));
     }
+    multi_volume_scripts(ctx, &mut rng, &mut model, &mut rep, &format!("c08/{}", ctx.seed), false);
     kf_open_root_stale(&mut rep, &mut rng);
     finish(rep, &model, "open/close histories over 14 limit configurations covering every value 1..8 for volumes, directories and files, with stale and never-issued handles passed to every call, id offsets near the u32 wrap; every handle value, error variant and has_open_handles answer compared with the Lean model; every public Result-returning method invoked from inside iterate_dir and iterate_dir_lfn callbacks must answer LockError and write nothing; distinct = histories")
 }
@@ -1559,6 +1720,7 @@ fn info_accounting(sc: &Scenario, res: &CaseResult, model: &mut Model, rep: &mut
 
 pub fn c11(ctx: &Ctx) -> Report {
     let mut rep = Report::new("C11");
+    let wrap_ok = io_probe_guard(&mut rep);
     let mut model = Model::spawn(&ctx.model_path);
     let mut rng = Rng::new(ctx.seed ^ 0xC11);
     let n = budget(ctx, 8, 150);
@@ -1583,13 +1745,16 @@ pub fn c11(ctx: &Ctx) -> Report {
             cfg.profile.w_list = 8;
         }
         cfg.compare_reads = true;
+        // half of the generated histories close / drop / flush / read through the RAII wrappers and embedded-io
+        cfg.profile.wrap = wrap_ok && k % 2 == 1;
         if k % 3 == 2 {
             let cb = (sc.vols[0].layout.bpc * 512) as usize;
             let (v, d, f) = (sc.id_offset, sc.id_offset + 1, sc.id_offset + 2);
             let data: Vec<u8> = (0..3 * cb + 100).map(|i| (i * 7 + k) as u8).collect();
             cfg.script = Some(vec![Op::OpenVolume(sc.vols[0].slot), Op::OpenRoot(v), Op::OpenFile(d, "RT.BIN".into(), Mode::ReadWriteCreateOrTruncate), Op::Write(f, data),
                 Op::SeekStart(f, 0), Op::Read(f, 3 * cb + 100), Op::SeekStart(f, 10), Op::Read(f, cb + 5), Op::Length(f), Op::SeekStart(f, (2 * cb - 3) as u32), Op::Read(f, 700),
-                Op::List(d), Op::Find(d, "RT.BIN".into()), Op::ListLfn(d, 64), Op::Flush(f), Op::SeekStart(f, 0), Op::Read(f, 2 * cb), Op::CloseFile(f), Op::Find(d, "RT.BIN".into())]);
+                Op::List(d), Op::Find(d, "RT.BIN".into()), Op::ListLfn(d, 64), Op::Flush(f), Op::SeekStart(f, 0), Op::Read(f, 2 * cb), Op::SeekEnd(f, 0), Op::Write(f, vec![7; 30]), if wrap_ok && k % 2 == 1 { Op::WCloseFile(f) } else { Op::CloseFile(f) }, Op::Find(d, "RT.BIN".into()),
+                Op::OpenFile(d, "RT.BIN".into(), Mode::ReadOnly), Op::Length(LAST_FILE), Op::CloseFile(LAST_FILE), Op::CloseDir(d), Op::CloseVolume(v), Op::HasOpen]);
         }
         let mut r1 = rng.fork(k as u64);
         let base = run_case(&mut r1, &sc, &cfg, &mut model, &mut rep, &format!("c11/{}/{k}/base", ctx.seed));
